@@ -13,11 +13,16 @@ Definition err_code (e : ekind) : nat :=
 Definition cres_of {A : Type} (r : rr A) : cres A :=
   match r with RVal a => COk a | RErr e => CErr (err_code e) end.
 
+(* fuel of one read_exact / read_to_end loop: the Interrupted events of the whole script (they
+   only get fewer) + the bytes wanted + 1 -- independent of the state, so that it costs nothing
+   to compute at every read *)
 Definition run_prog {A : Type} (cap chunk : nat) (p : prog A) (s : source) : cres A * nat :=
+  let f0 := n_interrupted (s_script s) in
   if cap =? 0 then
-    let '(r, s') := run_raw src_read (fun _ => chunk) src_fuel p s in (cres_of r, src_left s')
+    let '(r, s') := run_raw src_read (fun _ => chunk) (fun _ n => f0 + n + 1) p s in (cres_of r, src_left s')
   else
-    let '(r, st') := run_buf src_read cap (fun _ => chunk) b_fuel (fun st => b_fuel st 0) p ([], s) in
+    let '(r, st') := run_buf src_read cap (fun _ => chunk) (fun _ n => f0 + n + 1)
+                       (fun st => f0 + b_left st + 2) p ([], s) in
     (cres_of r, b_left st').
 
 Definition run_gzi (cap : nat) (s : source) := run_prog cap 32 p_gzi s.
